@@ -19,6 +19,7 @@ import (
 	"math/big"
 	"os"
 	"runtime"
+	"sort"
 	"sync"
 	"time"
 
@@ -37,6 +38,7 @@ type c06Case struct {
 	Source  string   `json:"source"`
 	Tickets bool     `json:"tickets"`
 	Data    bool     `json:"data,omitempty"` // driver-side: also push application data
+	Offer   bool     `json:"offer,omitempty"` // driver-side: the client has a session cache, i.e. offers the session-ticket extension
 }
 
 var suiteIDs = map[string]uint16{
@@ -191,6 +193,10 @@ func c06Configs(c *c06Case) (cc, sc *gmtls.Config, err error) {
 	}
 	cc.CipherSuites = suiteList(c.Csuites)
 	cc.DynamicRecordSizingDisabled = true
+	if c.Offer {
+		// a client offers the session-ticket extension only when it has somewhere to keep the ticket
+		cc.ClientSessionCache = gmtls.NewLRUClientSessionCache(1)
+	}
 	return cc, sc, nil
 }
 
@@ -213,6 +219,66 @@ type c06Obs struct {
 	DataBytes int      `json:"data_bytes"`
 	WantPeerC []string `json:"want_peer_c"` // what the client should see: the server's chain
 	WantPeerS []string `json:"want_peer_s"` // what the server should see when the client sent a certificate
+	Flight    []string `json:"flight"`      // "c:CH", "s:SH", ... in the order the records reached the interposer
+}
+
+var hsNames = map[byte]string{0: "HREQ", 1: "CH", 2: "SH", 4: "NST", 11: "CERT", 12: "SKE", 13: "CREQ", 14: "SHD", 15: "CV", 16: "CKE", 20: "FIN", 22: "CSTATUS", 67: "NPN"}
+
+// flightOf reads the handshake as the wire shows it: plaintext handshake messages (reassembled per direction), ChangeCipherSpec,
+// protected handshake records ("ENC"), alerts; it stops at the first application-data record.
+func flightOf(m *mitm) []string {
+	m.c2s.mu.Lock()
+	recs := append([]*record(nil), m.c2s.seen...)
+	m.c2s.mu.Unlock()
+	nc := len(recs)
+	m.s2c.mu.Lock()
+	recs = append(recs, m.s2c.seen...)
+	m.s2c.mu.Unlock()
+	dirOf := map[*record]string{}
+	for i, r := range recs {
+		if i < nc {
+			dirOf[r] = "c"
+		} else {
+			dirOf[r] = "s"
+		}
+	}
+	sort.Slice(recs, func(a, b int) bool { return recs[a].order < recs[b].order })
+	var out []string
+	buf := map[string][]byte{}
+	enc := map[string]bool{}
+	for _, r := range recs {
+		d := dirOf[r]
+		switch r.typ() {
+		case 20:
+			out = append(out, d+":CCS")
+			enc[d] = true
+		case 21:
+			out = append(out, d+":ALERT")
+		case 22:
+			if enc[d] {
+				out = append(out, d+":ENC")
+				continue
+			}
+			buf[d] = append(buf[d], r.body...)
+			for len(buf[d]) >= 4 {
+				n := int(buf[d][1])<<16 | int(buf[d][2])<<8 | int(buf[d][3])
+				if len(buf[d]) < 4+n {
+					break
+				}
+				name, ok := hsNames[buf[d][0]]
+				if !ok {
+					name = fmt.Sprintf("T%d", buf[d][0])
+				}
+				out = append(out, d+":"+name)
+				buf[d] = buf[d][4+n:]
+			}
+		case 23:
+			return out
+		default:
+			out = append(out, fmt.Sprintf("%s:R%d", d, r.typ()))
+		}
+	}
+	return out
 }
 
 func fp(der []byte) string { h := sha256.Sum256(der); return hex.EncodeToString(h[:8]) }
@@ -315,6 +381,7 @@ func runC06(c *c06Case) (c06Obs, error) {
 	if len(cc.Certificates) > 0 {
 		obs.WantPeerS = []string{fp(cc.Certificates[0].Certificate[0])}
 	}
+	obs.Flight = flightOf(m)
 	if c.Data && obs.Cli.Complete && obs.Srv.Complete && obs.Cli.Panic == "" && obs.Srv.Panic == "" {
 		n1, e1 := transfer(cli, srv, 220000, 1)
 		n2, e2 := 0, error(nil)
